@@ -119,13 +119,22 @@ def c20_search(tier='quick'):
                 return {'entries': n, 'operation': nm, 'what': 'the operation holds %d descriptors open at once (bound %d)' % (peak, bound)}
             if opened:
                 return {'entries': n, 'operation': nm, 'what': '%d descriptor(s) opened by the operation are still open after it returned and its result was dropped' % len(opened)}
-            if nm.split(':')[1].startswith(('get', 'touch')) and not nm.startswith('stacked'):
+            if nm.split(':')[1].startswith('get') and not nm.startswith('stacked'):
+                # a lookup makes at most two open attempts per cache directory; a sharded cache is ONE cache directory
+                # (one attempt per candidate shard)
                 attempts = sum(1 for sc, _ in calls if sc in ('openat', 'open', 'openat2'))
-                dirs = 2 if nm.startswith('sharded') else 1
-                if attempts > 2 * dirs:
-                    return {'entries': n, 'operation': nm, 'what': '%d open attempts for a lookup over %d director(y/ies)' % (attempts, dirs)}
+                if attempts > 2:
+                    return {'entries': n, 'operation': nm, 'what': '%d open attempts for one lookup in one cache directory (bound 2)' % attempts}
     base = sizes[0]
     ref = {nm: collections.Counter(sc for sc, _ in calls) for nm, calls in runs[base]}
+    # a cache from a builder reused after take() behaves like one from a fresh builder (same calls, fsync included)
+    for opn in ('set-new', 'ensure-miss', 'put-new'):
+        a, b = ref.get('fresh:' + opn), ref.get('reused:' + opn)
+        if a is not None and b is not None:
+            diff = {k: (a.get(k, 0), b.get(k, 0)) for k in set(a) | set(b) if a.get(k, 0) != b.get(k, 0) and k not in ('utimensat', 'futimens')}
+            if diff:
+                return {'operation': opn, 'what': 'a cache built from a builder that was reused after take() issues other system calls than one from a fresh builder '
+                        '(settings such as auto_sync were not reset to their defaults)', 'calls_that_differ (fresh, reused)': diff}
     for n in sizes[1:]:
         for nm, calls in runs[n]:
             if nm.endswith(':end') or nm.startswith('linked'):
